@@ -219,3 +219,42 @@ __CPROVER_ensures(transit_event->timestamp == *(uint64_t*)OLD(read_pos) && (uint
     harness='  unsigned char* p; TE* te; BW_header_slice(p, te);',
     dropped=['everything of the function outside the three header reads'], trusted=[], min_obligations=10)
 UNITS.append(header_slice)
+
+# ------------------------------------------------------------------------ control-request arms of _populate_transit_event_from_frontend_queue (C06 / C17)
+CA_PRELUDE = r'''
+typedef uint8_t Event;     enum { EV_Log, EV_InitBacktrace, EV_FlushBacktrace, EV_Flush, EV_LogWithRuntimeMetadata, EV_LoggerRemovalRequest };
+typedef struct MM { Event g_event; } MM;
+typedef struct FlagObj { bool v; } FlagObj;                /* std::atomic<bool> of the caller */
+typedef struct TE { MM* macro_metadata; FlagObj* flush_flag; } TE;
+typedef struct BW { int dummy; } BW;
+typedef struct SV { unsigned char const* d; size_t n; } SV;
+static inline Event MM_event(MM* m) { return m->g_event; }
+/* Codec<std::string>::decode_arg (unit CD.roundtrip[std::string]): [uint32 length][bytes]; the view points into the record */
+static inline SV DECODE_STRING(unsigned char** rp) { uint32_t len; memcpy(&len, *rp, sizeof(len)); SV v; v.d = *rp + sizeof(len); v.n = len; *rp += sizeof(len) + len; return v; }
+size_t g_emplaces; unsigned char const* g_emplaced_name; size_t g_emplaced_name_n; FlagObj* g_emplaced_flag;
+void REMOVAL_FLAGS_EMPLACE(BW* self, SV name, FlagObj* flag) __CPROVER_assigns(g_emplaces, g_emplaced_name, g_emplaced_name_n, g_emplaced_flag)
+__CPROVER_ensures(g_emplaces == OLD(g_emplaces) + 1 && g_emplaced_name == name.d && g_emplaced_name_n == name.n && g_emplaced_flag == flag);
+'''
+control_arms = dict(
+    name='BW.control_arms', primary='C06', props={'C06', 'C17'}, kind='L',
+    desc='the Flush and LoggerRemovalRequest arms of _populate_transit_event_from_frontend_queue: the flag address the caller encoded is the one the event carries (flush) / is registered under the logger name that follows it in the record (removal); the record is consumed exactly',
+    structs=[], prelude=CA_PRELUDE, enforce='BW_control_arms', replace=['REMOVAL_FLAGS_EMPLACE'],
+    funcs=[dict(src=dict(header=H, cls='BackendWorker', name='_populate_transit_event_from_frontend_queue',
+                         stmt_re=r'if \(transit_event->macro_metadata->event\(\) == MacroMetadata::Event::Flush\)\s*\{.*?_logger_removal_flags\.emplace\([^;]*\);\s*\}'),
+                cfun='BW_control_arms', sig='unsigned char* BW_control_arms(BW* self, unsigned char* read_pos, TE* transit_event)', cls_c='BW', member_fields=[], methods={'event': 'MM_event'},
+                pre_rules=[(r'MacroMetadata::Event::(\w+)', r'EV_\1'), (r'std::atomic<bool>\s*\*', 'FlagObj*'),
+                           (r'std::string_view\s+const\s+logger_name\s*=\s*Codec<std::string>::decode_arg\(read_pos\)\s*;', 'SV const logger_name = DECODE_STRING(&read_pos);'),
+                           (r'_logger_removal_flags\.emplace\(std::string\{logger_name\},\s*', 'REMOVAL_FLAGS_EMPLACE(self, logger_name, ')],
+                rules=[(r'\}\s*$', 'return read_pos;\n}')],
+                contract=r'''
+__CPROVER_requires(__CPROVER_is_fresh(self, sizeof(*self)) && __CPROVER_is_fresh(read_pos, 64) && __CPROVER_is_fresh(transit_event, sizeof(TE)) && __CPROVER_is_fresh(transit_event->macro_metadata, sizeof(MM)))
+__CPROVER_requires((transit_event->macro_metadata->g_event == EV_Flush || transit_event->macro_metadata->g_event == EV_LoggerRemovalRequest) && *(uint32_t*)(read_pos + 8) <= 32 && g_emplaces == 0)
+__CPROVER_assigns(transit_event->flush_flag, g_emplaces, g_emplaced_name, g_emplaced_name_n, g_emplaced_flag)
+__CPROVER_ensures(transit_event->macro_metadata->g_event == EV_Flush ==> ((uintptr_t)transit_event->flush_flag == *(uintptr_t*)OLD(read_pos) && RET == OLD(read_pos) + sizeof(uintptr_t) && g_emplaces == 0)) /*@ C06 "a flush event carries exactly the flag address its caller encoded: the backend later sets the very flag flush_log() waits on" */
+__CPROVER_ensures(transit_event->macro_metadata->g_event == EV_LoggerRemovalRequest ==> (g_emplaces == 1 && (uintptr_t)g_emplaced_flag == *(uintptr_t*)OLD(read_pos) && g_emplaced_name == OLD(read_pos) + 12 && g_emplaced_name_n == *(uint32_t*)(OLD(read_pos) + 8))) /*@ C17 "a removal request registers the caller's flag under the logger name that follows it in the record" */
+__CPROVER_ensures(transit_event->macro_metadata->g_event == EV_LoggerRemovalRequest ==> RET == OLD(read_pos) + 12 + *(uint32_t*)(OLD(read_pos) + 8)) /*@ C17 "the removal request is consumed exactly (flag, length, name)" */
+''')],
+    harness='  BW* s; unsigned char* p; TE* te; BW_control_arms(s, p, te);',
+    dropped=['assert (NDEBUG)', 'the unordered_map of removal flags (one emplace stub); std::string{logger_name} copies the name'],
+    trusted=['Codec<std::string>::decode_arg by an executable restatement (unit CD.roundtrip[std::string])', 'names of at most 32 bytes in a 64-byte record (the arithmetic does not depend on the length)'], min_obligations=10)
+UNITS.append(control_arms)
